@@ -6,6 +6,7 @@ import GabiModel.CL
 import GabiModel.Proofs
 import GabiModel.Decode
 import GabiModel.Prover
+import GabiModel.Keyshare
 namespace Gabi.Ops.Crypto
 open Lean Gabi Gabi.Wire Gabi.Ops
 
@@ -267,6 +268,19 @@ def handle : Handler := fun st op j =>
       | .ok (.rejected _) => pure (st, "rejected")
       | .ok (.credential sig vals) =>
         pure (st, "ok:" ++ ",".intercalate (vals.map hexOfInt) ++ s!" v={hexOfInt sig.v}")
+  | "ks-response" => some do
+    let keyIds ← (← asArr (← field j "keys")).mapM asStr
+    let keys ← keyIds.mapM fun id => do pure (id, ← st.key id)
+    let inputs ← (← asArr (← field j "inputs")).mapM fun i => do
+      let kid := match fieldOpt i "key" with
+        | some (.str s) => some s
+        | _ => none
+      pure ({ keyId := kid, value := ← getInt i "val", commitment := ← getInt i "comm", others := ← getInts i "others" } : KsInput)
+    let r := keyshareResponse keys (← getInt j "secret") (← getInt j "randomizer") (← getBool j "hashmatch")
+      (← getOptInt j "context") (← getInt j "nonce") (← getInt j "resp") (← getBool j "issig") inputs
+    pure (st, match r with
+      | some (c, s) => s!"ok:{hexOfNat c} s={hexOfInt s}"
+      | none => "err")
   | "verifyU" => some do
     let pk ← st.key (← getStr j "key")
     let ctx ← getInt j "context"
